@@ -22,10 +22,12 @@ var vfS struct {
 	set        obskeyperdatabase.KeyperSet
 	sigRows    int
 	writes     int
+	askedIdx   int64
 }
 
 //verif:stub (*github.com/shutter-network/rolling-shutter/rolling-shutter/chainobserver/db/keyper.Queries).GetKeyperSetByKeyperConfigIndex sql=getKeyperSetByKeyperConfigIndex
 func vfStubGetKeyperSet(q *obskeyperdatabase.Queries, ctx context.Context, idx int64) (obskeyperdatabase.KeyperSet, error) {
+	vfS.askedIdx = idx
 	if vfS.setMissing {
 		return obskeyperdatabase.KeyperSet{}, pgx.ErrNoRows
 	}
@@ -187,6 +189,10 @@ func H_C05_service_keys() {
 		return
 	}
 	vfReach("accepted")
+	// C06 at the level of the handler (see the Gnosis twin)
+	vfAssert(!vfS.setMissing && vfS.askedIdx == int64(msg.Eon), "keyper-set-of-the-message-eon-is-consulted")
+	ref, _ := ValidateDecryptionKeysSignatures(msg, msg.Extra.(*p2pmsg.DecryptionKeys_Service).Service, &vfS.set)
+	vfAssert(ref == pubsub.ValidationAccept, "accepted-keys-message-carries-a-threshold-of-genuine-signatures-or-none-at-all")
 	vfFlagKeys = msg
 	_, err := h.HandleMessage(context.Background(), msg)
 	if err == nil {
